@@ -145,7 +145,7 @@ func ParseCFF2(src []byte) (*CFF2, error) {
 }
 
 func parseIndex2(src []byte, offset int) ([][]byte, error) {
-	if L := len(src); L < offset+5 {
+	if L := len(src); offset < 0 || L < offset+5 {
 		return nil, fmt.Errorf("reading INDEX: EOF: expected length: %d, got %d", offset+5, L)
 	}
 	var is indexStart
